@@ -419,28 +419,32 @@ theorem threshold_spec {pl : PlayerF} {r : Nat} {rr rr' : RoundR} {e : Thresh} {
     intro pl' hpl'
     exact asm_ok h3 hpl'
 
+theorem pvoteAccepted_spec (hg : GoodSpec good) {r p s : Nat} {x : Vote} {pr pr' : PeriodR} {ev : Thresh}
+    (hq : QP good r p pr) (hx : good r p s x = true) (hf : pr.voteAccepted P r p s x = .ok (pr', ev)) :
+    QP good r p pr' ∧ ThreshOK P good r ev := by
+  unfold PeriodR.voteAccepted at hf
+  split at hf
+  · cases hf
+  rename_i pr₂ ev₂ hst
+  obtain ⟨hq₂, hev₂, _⟩ := atStep_spec good (R := fun a => ThreshOK P good r a) hq
+    (fun sr sr' a hqs hfs => accept_spec P good hg hqs hx hfs) hst
+  split at hf
+  · simp only [Except.ok.injEq, Prod.mk.injEq] at hf
+    obtain ⟨rfl, rfl⟩ := hf
+    exact ⟨QP_of_steps good (QP_upd good hq₂) rfl, hev₂⟩
+  · simp only [Except.ok.injEq, Prod.mk.injEq] at hf
+    obtain ⟨rfl, rfl⟩ := hf
+    exact ⟨hq₂, hev₂⟩
+
 theorem voteAccepted_spec (hg : GoodSpec good) {pl : PlayerF} {r p s : Nat} {x : Vote} {rr rr' : RoundR} {ev : Thresh}
     (hQ : QR P good r rr) (hx : good r p s x = true) (h : rr.voteAccepted P pl r p s x = .ok (rr', ev)) :
     QR P good r rr' ∧ ThreshOK P good r ev := by
   unfold RoundR.voteAccepted at h
-  simp only [] at h
   split at h
   · cases h
   rename_i rr₁ ev₁ hat
   obtain ⟨⟨h1, h2, h3⟩, hev, _⟩ := atPeriod_spec P good (R := fun a => ThreshOK P good r a) hQ
-    (fun pr pr' a hq hf => by
-      split at hf
-      · cases hf
-      rename_i pr₂ ev₂ hst
-      obtain ⟨hq₂, hev₂, _⟩ := atStep_spec good (R := fun a => ThreshOK P good r a) hq
-        (fun sr sr' a hqs hfs => accept_spec P good hg hqs hx hfs) hst
-      split at hf
-      · simp only [Except.ok.injEq, Prod.mk.injEq] at hf
-        obtain ⟨rfl, rfl⟩ := hf
-        exact ⟨QP_of_steps good (QP_upd good hq₂) rfl, hev₂⟩
-      · simp only [Except.ok.injEq, Prod.mk.injEq] at hf
-        obtain ⟨rfl, rfl⟩ := hf
-        exact ⟨hq₂, hev₂⟩) hat
+    (fun pr pr' a hq hf => pvoteAccepted_spec P good hg hq hx hf) hat
   split at h
   · split at h
     · simp only [Except.ok.injEq, Prod.mk.injEq] at h
